@@ -243,6 +243,11 @@ func runC12(c *eng.Ctx) {
 	}
 	c.Floor(10)
 
+	// ---- R12.6 acquire/release pairing
+	c.Rule("R12.6", "K2")
+	ruleLockPairing(c, "server/groups.go")
+	c.Floor(10)
+
 	// ---- R12.5 shared with C06
 	c.Rule("R06.2", "K8")
 	if fn := c.Fn("server.(*metadataAPI).removeStream"); fn != nil {
